@@ -2,23 +2,41 @@
    Property theorems only; definitions are in Model.v / Spec.v / Proofs3.v (SpecSup, SpecInit,
    life, proj, life_post, abn, nforks, logs_ok), proofs in Proofs1..4.v, instances in Examples.v.
 
-   Inputs of the model `fork_processes pt np cpu mr fs ws`:
+   Inputs of the model `fork_processes ek pt np cpu mr fs ws`:
      pt  = value of _task_id before the call (Some = called inside a worker)
      np, cpu, mr = num_processes, cpu_count(), max_restarts
+     ek  = (kind of exception os.fork raises, kind os.wait raises) once its scripted results are used up
      fs  = the successive results of os.fork()  (0 = this process is the child)
      ws  = the successive results (pid, status) of os.wait()
+   `fork_processes` = `fork_processes_d desc_expected`; the correspondence runs `fork_processes_d src_desc`
+   where src_desc is regenerated from tornado/process.py on every run (Gen/C41_src.v) - theorem 0.
    Everything below is for ALL values of these inputs (all histories, all fault sequences). *)
 From Coq Require Import List ZArith Bool.
 Import ListNotations.
 From TV Require Import Lib.Obs C41.Model C41.Spec C41.Run
-     C41.Proofs1 C41.Proofs2 C41.Proofs3 C41.Proofs4.
+     C41.Proofs1 C41.Proofs2 C41.Proofs3 C41.Proofs4 C41.Proofs5 C41.SrcExpected Gen.C41_src Gen.C41_equiv.
 Local Open Scope Z_scope.
+
+(* ---- 0. the decisions read from the source text on this run (default budget 100, `<= 0` -> cpu_count(),
+        the if/elif/else chain WIFSIGNALED / WEXITSTATUS != 0 / else with what each branch does, `>` in the
+        budget test, sys.exit(0)) and the rest of the function's text are the ones the model was written
+        from; and the model the correspondence executes is therefore the model of the theorems below *)
+Theorem C41_source_is_the_modelled_one :
+  src_desc = desc_expected /\ src_skeleton = expected_skeleton.
+Proof. exact source_is_the_modelled_one. Qed.
+Print Assumptions C41_source_is_the_modelled_one.
+
+Theorem C41_run_case_is_the_model :
+  forall ek pt np cpu mr fs ws,
+    run_case (ek, pt, np, cpu, mr, fs, ws) = render (fork_processes ek pt np cpu mr fs ws).
+Proof. exact run_case_is_model. Qed.
+Print Assumptions C41_run_case_is_the_model.
 
 (* ---- 1. refinement: the model never produces an observable that the ideal, worker-keyed
         supervisor of Spec.v rejects ... *)
 Theorem C41_supervisor_never_rejected :
-  forall pt np cpu mr fs ws,
-    spec_check pt np cpu mr (fork_processes pt np cpu mr fs ws) <> Reject.
+  forall ek pt np cpu mr fs ws,
+    spec_check ek pt np cpu mr (fork_processes ek pt np cpu mr fs ws) <> Reject.
 Proof. exact never_rejected. Qed.
 Print Assumptions C41_supervisor_never_rejected.
 
@@ -26,11 +44,21 @@ Print Assumptions C41_supervisor_never_rejected.
    of the rely condition "fork never returns the pid of a still-running worker"; reuse of a reaped
    pid is accepted too, see Examples.ex_pid_reuse; without the condition see Examples.ex_collision) *)
 Theorem C41_supervisor_accepted_when_pids_fresh :
-  forall pt np cpu mr fs ws,
+  forall ek pt np cpu mr fs ws,
     NoDup (filter (fun p => negb (p =? 0)) fs) ->
-    spec_check pt np cpu mr (fork_processes pt np cpu mr fs ws) = Accept.
+    spec_check ek pt np cpu mr (fork_processes ek pt np cpu mr fs ws) = Accept.
 Proof. exact accepted_when_fresh. Qed.
 Print Assumptions C41_supervisor_accepted_when_pids_fresh.
+
+(* EXACT form of the rely condition, for every input: the verdict on the model's observable is Accept
+   if and only if the trace itself never shows os.fork returning the pid of a worker that was forked and
+   not yet reaped (trace_fresh, computed from fork and exit-record events alone); otherwise EnvBroken *)
+Theorem C41_verdict_is_accept_iff_no_live_pid_collision :
+  forall ek np cpu mr fs ws,
+    spec_check ek None np cpu mr (fork_processes ek None np cpu mr fs ws)
+    = if trace_fresh (r_trace (fork_processes ek None np cpu mr fs ws)) then Accept else EnvBroken.
+Proof. exact verdict_exact. Qed.
+Print Assumptions C41_verdict_is_accept_iff_no_live_pid_collision.
 
 (* the checker applied to every implementation trace holds of every model trace *)
 Theorem C41_model_satisfies_checker : forall c, check_case c (run_case c) = true.
@@ -43,11 +71,11 @@ Print Assumptions C41_model_satisfies_checker.
         normal exit = finished; abnormal exit = restart with the same id, RuntimeError if the
         budget would be exceeded; exit 0 exactly when all finished. *)
 Theorem C41_accepted_traces_are_derivable :
-  forall np cpu mr res,
-    spec_check None np cpu mr res = Accept ->
+  forall ek np cpu mr res,
+    spec_check ek None np cpu mr res = Accept ->
     exists tr,
       r_trace res = EStart (want_procs np cpu) :: tr /\
-      SpecInit (want_procs np cpu) (want_budget mr) (seq 0 (want_procs np cpu))
+      SpecInit ek (want_procs np cpu) (want_budget mr) (seq 0 (want_procs np cpu))
                (fun _ => NotStarted) tr (r_out res) /\
       r_task res = match r_out res with OChild _ t => Some t | _ => None end.
 Proof. exact spec_check_sound. Qed.
@@ -59,10 +87,10 @@ Print Assumptions C41_accepted_traces_are_derivable.
    normal one; a worker may be left crashed only if the call failed (RuntimeError / fork error);
    no event ever mentions an id >= n *)
 Theorem C41_worker_lifecycle :
-  forall np cpu mr res,
-    spec_check None np cpu mr res = Accept ->
+  forall ek np cpu mr res,
+    spec_check ek None np cpu mr res = Accept ->
     (forall i, (i < want_procs np cpu)%nat ->
-       exists s, life SNot (proj i (r_trace res)) = Some s /\ life_post (r_out res) i s) /\
+       exists s, life SNot (proj i (r_trace res)) = Some s /\ life_post ek (r_out res) i s) /\
     (forall i, (want_procs np cpu <= i)%nat -> proj i (r_trace res) = []).
 Proof. exact accepted_lifecycle. Qed.
 Print Assumptions C41_worker_lifecycle.
@@ -70,26 +98,26 @@ Print Assumptions C41_worker_lifecycle.
 (* every log record (exit attributed to worker i, pid, kind) directly follows the wait result for
    that pid and carries the kind decoded from that status *)
 Theorem C41_exit_records_match_wait_results :
-  forall np cpu mr res,
-    spec_check None np cpu mr res = Accept -> logs_ok None (r_trace res).
+  forall ek np cpu mr res,
+    spec_check ek None np cpu mr res = Accept -> logs_ok None (r_trace res).
 Proof. exact accepted_logs. Qed.
 Print Assumptions C41_exit_records_match_wait_results.
 
 (* the supervisor exits only with status 0 and only after every worker's last incarnation
    exited normally *)
 Theorem C41_exit_only_after_all_workers_exited_normally :
-  forall np cpu mr res c,
-    spec_check None np cpu mr res = Accept ->
+  forall ek np cpu mr res c,
+    spec_check ek None np cpu mr res = Accept ->
     r_out res = OExit c ->
     c = 0 /\ forall i, (i < want_procs np cpu)%nat -> life SNot (proj i (r_trace res)) = Some SFin.
-Proof. intros np cpu mr res c A. exact (accepted_exit np cpu mr res A c). Qed.
+Proof. intros ek np cpu mr res c A. exact (accepted_exit ek np cpu mr res A c). Qed.
 Print Assumptions C41_exit_only_after_all_workers_exited_normally.
 
 (* RuntimeError exactly when the abnormal exits outnumber the budget; never more than
    n + budget forks *)
 Theorem C41_failure_iff_budget_exceeded :
-  forall np cpu mr res,
-    spec_check None np cpu mr res = Accept ->
+  forall ek np cpu mr res,
+    spec_check ek None np cpu mr res = Accept ->
     (r_out res = OTooMany <-> abn (r_trace res) > Z.max 0 (want_budget mr)) /\
     nforks (r_trace res) <= Z.of_nat (want_procs np cpu) + Z.max 0 (want_budget mr).
 Proof. exact accepted_budget. Qed.
@@ -97,8 +125,8 @@ Print Assumptions C41_failure_iff_budget_exceeded.
 
 (* the same, directly on the model, for EVERY input (no rely condition needed) *)
 Theorem C41_model_failure_iff_budget_exceeded :
-  forall np cpu mr fs ws,
-    let res := fork_processes None np cpu mr fs ws in
+  forall ek np cpu mr fs ws,
+    let res := fork_processes ek None np cpu mr fs ws in
     (r_out res = OTooMany <-> abn (r_trace res) > Z.max 0 (want_budget mr)) /\
     nforks (r_trace res) <= Z.of_nat (want_procs np cpu) + Z.max 0 (want_budget mr).
 Proof. exact model_budget_all_inputs. Qed.
@@ -107,25 +135,43 @@ Print Assumptions C41_model_failure_iff_budget_exceeded.
 (* the process in which fork returned 0 returns its own id, has it as task id, and it is the id
    of the fork that made it; in the parent task_id() stays None *)
 Theorem C41_child_sees_its_own_task_id :
-  forall np cpu mr res a t,
-    spec_check None np cpu mr res = Accept ->
+  forall ek np cpu mr res a t,
+    spec_check ek None np cpu mr res = Accept ->
     r_out res = OChild a t ->
     a = t /\ (a < want_procs np cpu)%nat /\ r_task res = Some a /\
     exists tr0, r_trace res = tr0 ++ [EFork a 0].
-Proof. intros np cpu mr res a t A. exact (accepted_child np cpu mr res A a t). Qed.
+Proof. intros ek np cpu mr res a t A. exact (accepted_child ek np cpu mr res A a t). Qed.
 Print Assumptions C41_child_sees_its_own_task_id.
 
 Theorem C41_parent_has_no_task_id :
-  forall np cpu mr res,
-    spec_check None np cpu mr res = Accept ->
+  forall ek np cpu mr res,
+    spec_check ek None np cpu mr res = Accept ->
     (forall a t, r_out res <> OChild a t) -> r_task res = None.
 Proof. exact accepted_parent_task. Qed.
 Print Assumptions C41_parent_has_no_task_id.
 
+(* an exception raised by os.fork / os.wait (ECHILD, EINTR, EAGAIN ...) comes out of the call unchanged *)
+Theorem C41_system_call_errors_propagate_unchanged :
+  forall ek np cpu mr res,
+    spec_check ek None np cpu mr res = Accept ->
+    (forall k, r_out res = OWaitErr k -> k = snd ek) /\ (forall k, r_out res = OForkErr k -> k = fst ek).
+Proof. exact accepted_errors. Qed.
+Print Assumptions C41_system_call_errors_propagate_unchanged.
+
+(* ... and on the model, for EVERY input, it is raised by the very call that found its results used up:
+   all scripted wait (resp. fork) results were consumed before it, none is skipped or retried *)
+Theorem C41_model_system_call_errors :
+  forall ek np cpu mr fs ws,
+    let res := fork_processes ek None np cpu mr fs ws in
+    (forall k, r_out res = OWaitErr k -> k = snd ek /\ nwaits (r_trace res) = Z.of_nat (length ws)) /\
+    (forall k, r_out res = OForkErr k -> k = fst ek /\ nforks (r_trace res) = Z.of_nat (length fs)).
+Proof. exact model_errors_propagate. Qed.
+Print Assumptions C41_model_system_call_errors.
+
 (* calling fork_processes inside a worker forks nothing *)
 Theorem C41_nested_call_refused :
-  forall t np cpu mr res,
-    spec_check (Some t) np cpu mr res = Accept ->
+  forall ek t np cpu mr res,
+    spec_check ek (Some t) np cpu mr res = Accept ->
     r_trace res = [] /\ r_out res = OAssert /\ r_task res = Some t.
 Proof. exact spec_check_sound_nested. Qed.
 Print Assumptions C41_nested_call_refused.
@@ -133,13 +179,13 @@ Print Assumptions C41_nested_call_refused.
 (* ---- 3. the statement of C41 for the model itself: all histories, all fault sequences,
         distinct fork results *)
 Theorem C41_model_meets_statement :
-  forall np cpu mr fs ws,
+  forall ek np cpu mr fs ws,
     NoDup (filter (fun p => negb (p =? 0)) fs) ->
-    let res := fork_processes None np cpu mr fs ws in
+    let res := fork_processes ek None np cpu mr fs ws in
     let n := want_procs np cpu in
     let B := want_budget mr in
     (forall i, (i < n)%nat ->
-       exists s, life SNot (proj i (r_trace res)) = Some s /\ life_post (r_out res) i s) /\
+       exists s, life SNot (proj i (r_trace res)) = Some s /\ life_post ek (r_out res) i s) /\
     (forall i, (n <= i)%nat -> proj i (r_trace res) = []) /\
     (r_out res = OTooMany <-> abn (r_trace res) > Z.max 0 B) /\
     nforks (r_trace res) <= Z.of_nat n + Z.max 0 B /\
@@ -153,9 +199,9 @@ Print Assumptions C41_model_meets_statement.
 
 (* unknown pids are ignored: the loop state is unchanged *)
 Theorem C41_unknown_pid_ignored :
-  forall maxr pid st ws fs ch nr,
+  forall ek maxr pid st ws fs ch nr,
     ch <> [] -> cm_find pid ch = None ->
-    supervise maxr ((pid, st) :: ws) fs ch nr = pre [EWait pid st] (supervise maxr ws fs ch nr).
+    supervise ek maxr ((pid, st) :: ws) fs ch nr = pre [EWait pid st] (supervise ek maxr ws fs ch nr).
 Proof. exact unknown_pid_ignored. Qed.
 Print Assumptions C41_unknown_pid_ignored.
 
